@@ -28,7 +28,7 @@ pub fn run(ctx: &Ctx) -> (Report, Meta) {
         bidirectional_problems: false,
         ..Default::default()
     };
-    let nrand = ctx.size(15_000, 1_500_000);
+    let nrand = ctx.size(60_000, 6_000_000);
     let rep = par_for(nrand, "C18", |i, rep| {
         let case_id = format!("run/{}", i);
         if !ctx.want(&case_id) {
@@ -138,7 +138,7 @@ pub fn run(ctx: &Ctx) -> (Report, Meta) {
     // hard runs: stiffness met with explicit methods (ProbablyStiff), Newton failures in the
     // implicit methods, sudden onset of stiffness, huge first steps, blow-up; the counters must be
     // right on failing runs too
-    let nhard = ctx.size(1_500, 60_000);
+    let nhard = ctx.size(6_000, 300_000);
     let rep_h = par_for(nhard, "C18", |i, rep| {
         let case_id = format!("hard/{}", i);
         if !ctx.want(&case_id) {
@@ -208,7 +208,7 @@ pub fn run(ctx: &Ctx) -> (Report, Meta) {
     });
 
     // low-level builders: naccpt == number of post-initial callbacks, nfev == probe count
-    let nlow = ctx.size(3_000, 300_000);
+    let nlow = ctx.size(12_000, 1_500_000);
     let rep2 = par_for(nlow, "C18", |i, rep| {
         let case_id = format!("low/{}", i);
         if !ctx.want(&case_id) {
